@@ -62,7 +62,7 @@ fn retain_tasks(s: &Scenario, keep: &[usize]) -> Option<Scenario> {
         })
         .collect();
     for p in n.picks.iter_mut() {
-        p.task = map(p.task as usize).unwrap_or(0) as u8;
+        p.task = map(p.task as usize).unwrap_or(0) as u16;
     }
     Some(n)
 }
@@ -124,6 +124,7 @@ fn expr_candidates(x: &X) -> Vec<X> {
             X::Vec(v) if !v.is_empty() => Some(X::Vec(v[1..].to_vec())),
             X::Chain(op, v) if v.len() > 1 => Some(X::Chain(*op, v[..v.len() - 1].to_vec())),
             X::Tower(op, n, a) if *n > 0 => Some(X::Tower(*op, n / 2, a.clone())),
+            X::ManyCalls(f, from, n) if *n > 1 => Some(X::ManyCalls(f.clone(), *from, n / 2)),
             X::Map(m) if m.len() > 1 => Some(X::Map(m[1..].to_vec())),
             _ => None,
         }) {
